@@ -1,7 +1,7 @@
 #!/bin/bash
 # tools/keepall.sh <suffix> : evaluate and keep every finished seeded change of a batch (ids C??<suffix>)
 sfx=$1
-for d in /tmp/mut-out/C??$sfx; do
+for d in /tmp/mut-out/C??$sfx*; do
   id=$(basename $d)
   [ -f $d/NOTES.md ] && [ -f $d/patch.diff ] || continue
   [ -f /verif/seeded/$id/meta.json ] && continue
